@@ -70,6 +70,9 @@ def handle (fn : String) (a : Json) : Option (Except String Json) :=
     | "TaskSpec" => pure (resJson (ctorTask O doc))
     | "WorkflowSpec" => pure (resJson (ctorWorkflow O doc))
     | "WorkflowListSpec" => pure (resJson (ctorWorkflowList O doc))
+    | "ActionSpec" => pure (resJson (ctorAction O doc))
+    | "ActionListSpec" => pure (resJson (ctorActionList O doc))
+    | "WorkbookSpec" => pure (resJson (ctorWorkbook O doc))
     | _ => throw s!"no constructor model for {cls}"
   | _ => none
 
